@@ -210,6 +210,24 @@ Theorem C01_lon_all : forall l, Forall (fun x => (-180 <= x)%Q) l ->
 Proof. exact c01_wrap_all_spec. Qed.
 Print Assumptions C01_lon_all.
 
+(* ---- access histories (lazily derived coordinates, supplied areas) ---- *)
+Theorem C01_access_order_lon : forall derived computed rs s0,
+  Forall (fun x => (-180 <= x)%Q) derived -> c01_lon_ok derived s0 ->
+  c01_lon_ok derived (c01_rd_run derived computed s0 rs).
+Proof. exact c01_access_order_lon. Qed.
+Print Assumptions C01_access_order_lon.
+
+Theorem C01_access_order_lon_present : forall derived computed rs s0,
+  (In RdNodeLon rs \/ In RdNodeLat rs) -> lz_lon (c01_rd_run derived computed s0 rs) <> None.
+Proof. exact c01_access_order_lon_present. Qed.
+Print Assumptions C01_access_order_lon_present.
+
+Theorem C01_supplied_kept : forall derived computed rs s0,
+  (forall a, lz_areas s0 = Some a -> lz_areas (c01_rd_run derived computed s0 rs) = Some a) /\
+  (forall l, lz_lon s0 = Some l -> lz_lon (c01_rd_run derived computed s0 rs) = Some l).
+Proof. exact c01_supplied_kept. Qed.
+Print Assumptions C01_supplied_kept.
+
 (* ---- format sniffing ---- *)
 Theorem C01_sniff : forall k,
   (c01_sniff k = 0 <-> k_coord k = true \/ k_coordx k = true) /\
